@@ -222,6 +222,12 @@ def burst_feature_specs(df, centre, res='result'):
         "forall(i, 1 <= i < %s - 1, same({res}['period_consistency'][i], period_consistency_spec("
         "{df}['period'], 'both', i)))" % n,
         "forall(i, 0 <= i < %s, same({res}['monotonicity'][i], %s))" % (n, mono),
+        # C05, range: the two consistencies lie in [0, 1] whenever the periods / (finite) flank voltages involved are positive
+        "forall(i, 1 <= i < %s - 1, implies({df}['period'][i - 1] > 0 and {df}['period'][i] > 0 and {df}['period'][i + 1] > 0, "
+        "0 <= {res}['period_consistency'][i] and {res}['period_consistency'][i] <= 1))" % n,
+        "forall(i, 1 <= i < %s - 1, implies(" % n + " and ".join("{df}['%s'][i%s] > 0 and isfinite({df}['%s'][i%s])" % (c_, o_, c_, o_)
+                                                                 for c_ in ('volt_rise', 'volt_decay') for o_ in (' - 1', '', ' + 1')) +
+        ", 0 <= {res}['amp_consistency'][i] and {res}['amp_consistency'][i] <= 1))",
     ]
     return [s.format(df=df, res=res) for s in out]
 
@@ -250,7 +256,9 @@ def _cbf_cases():
                         'burst_kwargs': bt},
                 requires=[row_invariant('df_shape_features', centre),
                           "forall(j, 0 <= j < len(df_shape_features), df_shape_features['period'][j] > 0)"],
-                ensures=["len(result) == len(df_shape_features)"] + burst_feature_specs('df_shape_features', centre)))
+                ensures=["len(result) == len(df_shape_features)"] + burst_feature_specs('df_shape_features', centre),
+                # the range clause of amp_consistency needs nothing but the callee's own clauses about that column
+                ensures_using={9: ['call:compute_amp_consistency#1']}))
         # amp: every subset of the documented keys of burst_kwargs (presence bits are symbolic)
         amp = "(value(burst_kwargs, 'amp_threshes') if present(burst_kwargs, 'amp_threshes') else (1, 2))"
         mnc = ("(None if present(burst_kwargs, 'min_burst_duration') else "
